@@ -315,7 +315,15 @@ where
                     &mut self.pool,
                 )? {
                     RouteResult::Handled => {
-                        // routed a job, we're done trying to route the next active job.
+                        // routed a job, we're done trying to route the next active job, unless the
+                        // job went to another worker than the hinted one (sticky routing follows
+                        // the key) and the hinted worker is still free: keep feeding it, otherwise
+                        // it idles with work left in the queue and nothing triggers routing again.
+                        if worker_hint.is_some_and(|hint| {
+                            hint != worker && self.pool.get(&hint).is_some_and(|w| w.is_available())
+                        }) {
+                            continue;
+                        }
                         return Ok(());
                     }
                     RouteResult::RateLimited(mut job) => {
